@@ -106,9 +106,9 @@ def borrows_preserve_header(prog, f, is_root, stack):
                 srcp = None
                 if rv["k"] in ("ref", "rawptr") and rv.get("mut", True):
                     srcp = rv["place"]
-                elif rv["k"] == "use" and rv["op"]["k"] in ("copy", "move") and rv["op"]["place"]["local"] in alias:
-                    srcp = rv["op"]["place"]
-                elif rv["k"] == "cast" and rv["op"]["k"] in ("copy", "move") and rv["op"]["place"]["local"] in alias:
+                elif rv["k"] in ("use", "cast") and rv["op"]["k"] in ("copy", "move") and \
+                        (rv["op"]["place"]["local"] in alias or (is_root(rv["op"]["place"]) and rv["op"]["place"]["proj"])):
+                    # a copy of the borrow (or of the captured `&mut` itself: `_t = (*env).k`)
                     srcp = rv["op"]["place"]
                 if srcp is not None and src_is_root_or_alias(srcp):
                     d = st["place"]
